@@ -29,7 +29,17 @@ VerdictE(e) ==
             why |-> "an element does not have exactly the defaulted attributes declared for ITS element type (qualified name)",
             text |-> Render(EDoc(D)), child |-> CHOOSE k \in bad : TRUE, observed |-> e.kids]
       ELSE [verdict |-> "ok"]
-VerdictAny(e) == IF e.event = "elemq" THEN VerdictE(e) ELSE Verdict(e)
+\* {"event":"shared","ty":s,"order":"content-first"|"attr-first","parsed":b,"attr":[cp..],"content":[cp..]}
+VerdictS(e) ==
+  IF ~e.parsed THEN [verdict |-> "VIOLATION", why |-> "a well-formed document was rejected", text |-> SText(e.ty)]
+  ELSE IF e.attr # SAttrValue(e.ty)
+  THEN [verdict |-> "VIOLATION", why |-> "the value of an attribute holding an entity reference is not the normalized replacement text (3.3.3) - read " \o e.order,
+        text |-> SText(e.ty), expected |-> SAttrValue(e.ty), observed |-> e.attr]
+  ELSE IF e.content # SContent
+  THEN [verdict |-> "VIOLATION", why |-> "the replacement text included in content is not the entity's replacement text - read " \o e.order,
+        text |-> SText(e.ty), expected |-> SContent, observed |-> e.content]
+  ELSE [verdict |-> "ok"]
+VerdictAny(e) == IF e.event = "elemq" THEN VerdictE(e) ELSE IF e.event = "shared" THEN VerdictS(e) ELSE Verdict(e)
 TInit == l = 1
 TNext == /\ l <= Len(Rec)
          /\ LET v == VerdictAny(Rec[l]) IN IF v.verdict = "ok" THEN TRUE ELSE PrintT(<<"VERDICT", ToJson([i |-> l] @@ v)>>)
